@@ -81,22 +81,33 @@ theorem each_flag_at_most_one_followup (p : Params) (cap : Nat) (ops : List Op1)
   omega
 
 /-- every flag event (every insertion of a new request into the follow-up queue) stems from
-released detection records of that site, and its filtered rate reached the instant threshold
-(instant route) or the follow-up threshold / rolling-window thresholds (pool route) -/
+released detection records of that site, its rate is the *redundancy-filtered* rate of exactly those
+detections (`filt`: recent / max / average; rolling means over the small / large window for
+stationary screening, 0 for a planner with a single detection), and that filtered rate reached the
+instant threshold (instant route) or the follow-up threshold / rolling-window thresholds (pool route) -/
 theorem queued_implies_flagged (p : Params) (cap : Nat) (ops : List Op1) (hw : WellDated p cap {} ops) :
     ∀ f ∈ (run1 p cap ops).m.evs,
       f.rates ≠ [] ∧
       (∀ r ∈ f.rates, ∃ rc ∈ (run1 p cap ops).m.released,
           rc.site = f.site ∧ rc.rate = r ∧ rc.date + p.rd ≤ f.day) ∧
+      (p.stationary = false → f.rate = filt p.filter f.rates) ∧
+      (p.stationary = true →
+          (f.rates.length = 1 ∧ f.rate = 0 ∧ f.rateLong = 0) ∨
+          (2 ≤ f.rates.length ∧ f.rate = meanLast p.sw f.rates ∧ f.rateLong = meanLast p.lw f.rates)) ∧
       (f.route = .instant → ∃ t, p.inst = some t ∧ t ≤ f.rate) ∧
-      (f.route = .pool → p.stationary = false → p.thr ≤ f.rate) ∧
+      (f.route = .pool → p.stationary = false → p.thr ≤ filt p.filter f.rates) ∧
       (f.route = .pool → p.stationary = true →
           p.sthr ≤ f.rate ∨ (p.lthr ≠ 0 ∧ f.rateLong ≠ 0 ∧ p.lthr ≤ f.rateLong)) := by
   intro f hf
-  obtain ⟨_, _, h3, h4, h5⟩ := (run1_invC p cap ops hw).evsOK f hf
-  refine ⟨h3, h4, ?_, ?_, ?_⟩
+  obtain ⟨_, _, h3, h4, h5, h6⟩ := (run1_invC p cap ops hw).evsOK f hf
+  unfold RateOK at h6
+  refine ⟨h3, h4, ?_, ?_, ?_, ?_, ?_⟩
+  · intro hs; simpa [hs] using h6
+  · intro hs; simpa [hs] using h6
   · intro hr; unfold RouteOK at h5; rw [hr] at h5; exact h5.1
-  · intro hr hs; unfold RouteOK at h5; rw [hr] at h5; simpa [hs] using h5.2
+  · intro hr hs; unfold RouteOK at h5; rw [hr] at h5
+    have h7 : f.rate = filt p.filter f.rates := by simpa [hs] using h6
+    rw [← h7]; simpa [hs] using h5.2
   · intro hr hs; unfold RouteOK at h5; rw [hr] at h5; simpa [hs] using h5.2
 
 /-- every request waiting in the follow-up queue belongs to a flagged site (flag set, flagged at
@@ -133,7 +144,7 @@ theorem not_before_reporting_delay (p : Params) (cap : Nat) (ops : List Op1) (hw
     (∀ v ∈ (run1 p cap ops).sh.visits, v.recDate + p.rd ≤ v.day) := by
   refine ⟨?_, (run1_invD p cap ops hw).visitsOK⟩
   intro f hf
-  obtain ⟨h1, _, _, _, h5⟩ := (run1_invC p cap ops hw).evsOK f hf
+  obtain ⟨h1, _, _, _, h5, _⟩ := (run1_invC p cap ops hw).evsOK f hf
   refine ⟨h1, ?_, ?_⟩
   · intro hr; unfold RouteOK at h5; rw [hr] at h5; exact h5.2.1
   · intro hr; unfold RouteOK at h5; rw [hr] at h5; exact h5.1
@@ -310,7 +321,7 @@ latest tagging survey (the pool route is the known finding F17) -/
 theorem stale_instant_partial (p : Params) (cap : Nat) (ops : List Op1) (hw : WellDated p cap {} ops) :
     ∀ f ∈ (run1 p cap ops).m.evs, f.route = .instant → f.tagAtFlag ≤ f.recDate := by
   intro f hf hr
-  obtain ⟨_, _, _, _, h5⟩ := (run1_invC p cap ops hw).evsOK f hf
+  obtain ⟨_, _, _, _, h5, _⟩ := (run1_invC p cap ops hw).evsOK f hf
   unfold RouteOK at h5; rw [hr] at h5; exact h5.2.2.2
 
 /-! #### the follow-up method only works from its queue -/
@@ -442,7 +453,7 @@ theorem C09_partial (p : Params) (cap : Nat) (ops : List Op)
     | zero =>
       simp only [List.getElem?_cons_zero, Option.some.injEq] at hmi
       subst hmi
-      obtain ⟨_, _, _, _, h5⟩ := hC.evsOK f hf
+      obtain ⟨_, _, _, _, h5, _⟩ := hC.evsOK f hf
       unfold RouteOK at h5; rw [hr] at h5; exact h5.2.2.2
     | succ k => simp at hmi
 
